@@ -175,6 +175,7 @@ class Whitener(Transformer):
             VS = self.T.conj().T
             VS = VS.rename({"mode": dummy_dim})
             transformed = xr.dot(VS, X, dims=self.feature_name)
+            transformed.name = X.name
             return transformed.rename({dummy_dim: self.feature_name})
 
     def inverse_transform_components(self, X: DataArray) -> DataArray:
@@ -187,7 +188,9 @@ class Whitener(Transformer):
             comps_pc_space = X.rename({self.feature_name: dummy_dim})
             VS = self.Tinv.conj().T
             VS = VS.rename({"mode": dummy_dim})
-            return xr.dot(VS, comps_pc_space, dims=dummy_dim)
+            transformed = xr.dot(VS, comps_pc_space, dims=dummy_dim)
+            transformed.name = X.name
+            return transformed
 
     def inverse_transform_scores(self, X: DataArray) -> DataArray:
         """Transform 2D scores (sample x mode) from whitened space back into original space."""
